@@ -1,14 +1,23 @@
 """C19 - with TLS configured no endpoint is advertised or contacted in plaintext.
 
 (1) loop-back, configuration enumeration: provider TLS {off,on} x consumer {none, optional, enforced} x {sync, async} provider x
-    alternative host name; full start-up, subscription, transaction + notification, operation invocation, renew, GetStatus,
-    unsubscribe / SubscriptionEnd.  Monitors: URL scanner over every serialised message on the wire (every URL that points to one of
-    the endpoints of the run), recorder of every connection object the SOAP clients create (TLS client context identity).
-(2) real localhost sockets with a generated PKI: start-up, subscribe, one transaction, stop; sys.addaudithook records every
-    socket.connect, a recorder around SSLContext.wrap_socket records which socket was wrapped by which context: every TCP connection
-    to a provider / consumer port must have been wrapped by the expected client context.
-(3) contexts built by mk_ssl_contexts(ca_file=...): verify_mode == CERT_REQUIRED on both, and an in-memory handshake matrix
-    {trusted, untrusted, no certificate} x {consumer->provider, provider->consumer}.
+    alternative host names (provider and consumer) x {path, reference-parameter} dispatching subscription managers.  Per run:
+    * raw subscriber (vf/c19_wire.py): hand-written Subscribe requests, everything the subscriber controls varied (wsa:To scheme / host /
+      absent, Host header, NotifyTo / EndTo written with http or on other netlocs); reports and SubscriptionEnd go to sinks of the harness;
+    * library consumer: start-up, subscription, transactions + notifications, operation, renew, GetStatus, location (Hello) + directed Probe,
+      faults injected after start-up, unsubscribe, restart against a failing handshake; provider shutdown with SubscriptionEnd.
+    Monitors: regex scanner over every serialised message (every scheme:host:port that names an endpoint of the run, also the '//'-less form
+    of SubscriptionEnd), structural scanner (every element that names a transport address of the sender, whatever host:port), x_addrs handed
+    to WS-Discovery, recorder of every connection object the SOAP clients create (TLS client context identity; consumer -> provider,
+    provider -> consumer, provider -> raw subscriber sinks), audit hook (no connection outside the SOAP clients).
+(2) real localhost sockets with a generated PKI, own http servers on both sides, sync / async provider components x alternative host names:
+    sys.addaudithook records every socket.connect, a recorder around SSLContext.wrap_socket records which socket was wrapped by which context;
+    first bytes written to plain TCP sockets must be TLS records; the plaintext entering the TLS layer (SSLSocket.send / SSLObject.write) is
+    scanned for addresses; peers without / with an untrusted certificate and a plaintext peer are offered to both real servers, a server with
+    an untrusted certificate to the consumer's soap client.
+(3) contexts built by mk_ssl_contexts(ca_file=...): verify_mode == CERT_REQUIRED on both, in-memory handshake matrix
+    {trusted, untrusted, no certificate} x {consumer->provider, provider->consumer}; call sequences (vf/c19_ctxseq.py): every call with a CA
+    file is judged by a per-call model (trusts exactly its CA, both directions) whatever was called before / afterwards.
 """
 from __future__ import annotations
 
@@ -21,7 +30,7 @@ import threading
 import time
 import uuid
 
-from .. import c19_wire, core, mdibops
+from .. import c19_ctxseq, c19_wire, core, mdibops
 from ..mdibharness import FIXTURES, World
 
 MODULE = 'vf.props.c19'
@@ -115,7 +124,8 @@ def _w_loopback(ctx, arg, provider_tls, consumer_mode, async_mgr, alt_host, labe
     raw = None
     if arg.get('raw', True):
         try:
-            raw = c19_wire.RawSubscriber(net, f'127.0.0.1:{world.provider_server.server_port}', world.provider_address.replace('vfhost.example', '127.0.0.1'))
+            raw = c19_wire.RawSubscriber(net, f'127.0.0.1:{world.provider_server.server_port}', world.provider_address.replace('vfhost.example', '127.0.0.1'),
+                                        sink_scheme='https' if provider_tls else 'http')
             if raw.discover() is None:
                 raise RuntimeError('no hosted service address in the TransferGet response')
             combos = list(c19_wire.DIRECTED)
@@ -178,7 +188,7 @@ def _w_loopback(ctx, arg, provider_tls, consumer_mode, async_mgr, alt_host, labe
             ops = world.mdib.descriptions.NODETYPE.get(pm.SetValueOperationDescriptor, [])
             if ops:
                 fut = consumer.client('Set').set_numeric_value(ops[0].Handle, Decimal('1'))
-                fut.result(timeout=5)
+                fut.result(timeout=WATCHDOG)  # generous: guards against a hang only, no verdict depends on it
                 ctx.count('loopback.operation_invoked')
         except Exception as ex:  # noqa: BLE001
             ctx.count('loopback.operation_failed')
@@ -265,7 +275,7 @@ def _w_loopback(ctx, arg, provider_tls, consumer_mode, async_mgr, alt_host, labe
         import socket as _s
         _s.gethostbyname = orig_gethost
     ctx.count(f'loopback.config.{"tls" if provider_tls else "plain"}.{consumer_mode}.{outcome}')
-    ctx.case(('loopback', provider_tls, consumer_mode, async_mgr, alt_host, outcome))
+    ctx.case(('loopback', provider_tls, consumer_mode, async_mgr, alt_host, arg.get('dispatch', 'path'), arg.get('offsite_wsdl'), outcome))
     provider_port = world.provider_server.server_port
     consumer_port = server.server_port if consumer is not None else None
     # ---- monitor 1: URLs on the wire ------------------------------------------------------------
@@ -515,11 +525,72 @@ def w_contexts(ctx: core.Ctx, arg):
             if ok != expect:
                 ctx.witness(f'handshake.server_{peer}.{"accepted" if ok else "rejected"}',
                             f'client context: handshake with a {peer} server {"succeeded" if ok else "failed"}', {'direction': direction, 'why': why})
+    # call sequences (history of earlier calls, other CA, cyphers, folder variant), each call with a CA file judged by the per-call model
+    c19_ctxseq.run(ctx, PKI)
 
 
 # ------------------------------------------------------------------------------------------------
+WATCHDOG = 120.0  # wall-clock bound of one wait in the real-socket runs: only guards against a real hang, firing = inconclusive
+
+
+def _barrier(consumer) -> bool:
+    """True when everything that was enqueued at the consumer's notification dispatcher before this call has been processed (the provider's
+    commit returns after the consumer's http server answered every notification, i.e. after they were enqueued)."""
+    q = getattr(consumer._services_dispatcher, '_queue', None)
+    if q is None:
+        return True
+    done = threading.Event()
+    q.put((lambda _request: done.set(), None, 'vf-barrier'))
+    return done.wait(WATCHDOG)
+
+
+def _peer_context(kind: str) -> ssl.SSLContext | None:
+    """client contexts of the harness' own peers (built with the ssl module, not with the library)."""
+    if kind == 'plaintext':
+        return None
+    c = ssl.SSLContext(ssl.PROTOCOL_TLS_CLIENT)
+    c.check_hostname = False
+    c.verify_mode = ssl.CERT_NONE
+    if kind == 'trusted':
+        c.load_cert_chain(PKI / 'consumer.pem', PKI / 'consumer.key')
+    elif kind == 'untrusted':
+        c.load_cert_chain(PKI / 'untrusted.pem', PKI / 'untrusted.key')
+    return c
+
+
+def _http_probe(port: int, kind: str, harness_socks: list) -> tuple[bool, str]:
+    """one peer of the given kind asks the server on 127.0.0.1:port for something -> (it got an HTTP answer, what happened)."""
+    import socket
+    sock = socket.socket(socket.AF_INET, socket.SOCK_STREAM)
+    harness_socks.append(sock)
+    sock.settimeout(WATCHDOG)
+    try:
+        sock.connect(('127.0.0.1', port))
+        cctx = _peer_context(kind)
+        if cctx is not None:
+            sock = cctx.wrap_socket(sock)
+            harness_socks.append(sock)
+        sock.sendall(b'GET /vf/?wsdl HTTP/1.1\r\nHost: 127.0.0.1\r\nConnection: close\r\n\r\n')
+        data = b''
+        while len(data) < 5:
+            part = sock.recv(64)
+            if not part:
+                break
+            data += part
+        return data.startswith(b'HTTP/'), f'answer starts with {data[:12]!r}'
+    except (ssl.SSLError, OSError) as ex:
+        return False, f'{type(ex).__name__}'
+    finally:
+        try:
+            sock.close()
+        except OSError:
+            pass
+
+
 def w_real_sockets(ctx: core.Ctx, arg):
-    """real localhost sockets + TLS: every TCP connection to a provider / consumer port is wrapped by the expected client context."""
+    """real localhost sockets + TLS, own http servers on both sides: every TCP connection to a provider / consumer port is wrapped by the expected
+    client context, nothing but TLS records is written to them, every address inside the TLS streams uses https, and the two servers answer no
+    peer without / with an untrusted certificate and no plaintext peer."""
     import socket
     from sdc11073.consumer.consumerimpl import SdcConsumer
     from sdc11073.definitions_sdc import SdcV1Definitions
@@ -529,6 +600,7 @@ def w_real_sockets(ctx: core.Ctx, arg):
     from ..mdibharness import load_mdib_bytes, mk_model_and_device
     connects = []  # (id(sock), addr)
     wraps = {}  # id(sock) -> context
+    harness_socks = []  # sockets of the harness' own peers (kept alive: ids stay unique)
 
     def audit(event, args):
         if event == 'socket.connect':
@@ -570,20 +642,54 @@ def w_real_sockets(ctx: core.Ctx, arg):
         _rec(self, data)
         return o_sendall(self, data, *a)
     socket.socket.send, socket.socket.sendall = send, sendall
+    # third monitor: the plaintext that enters the TLS layer (http.client / the http server write through SSLSocket.send, asyncio TLS through
+    # SSLObject.write): the serialised messages of the own-http-server configuration, scanned for addresses like the loop-back wire log
+    streams = {}  # id(ssl object) -> [object, bytearray]
+    o_ssl_send, o_obj_write = ssl.SSLSocket.send, ssl.SSLObject.write
+
+    def _cap(obj, data, n):
+        if n:
+            with fb_lock:
+                buf = streams.setdefault(id(obj), [obj, bytearray()])[1]
+                if len(buf) < 4_000_000:
+                    buf += bytes(memoryview(data)[:n])
+
+    def ssl_send(self, data, flags=0):
+        n = o_ssl_send(self, data, flags)
+        _cap(self, data, n)
+        return n
+
+    def obj_write(self, data):
+        n = o_obj_write(self, data)
+        _cap(self, data, n)
+        return n
+    ssl.SSLSocket.send, ssl.SSLObject.write = ssl_send, obj_write
+    alt = bool(arg.get('alt_host'))
+    o_gai, o_ghbn = socket.getaddrinfo, socket.gethostbyname
+    names = ('vfhost.example', CONSUMER_ALT)
+    if alt:
+        socket.getaddrinfo = lambda host, *a, **k: o_gai('127.0.0.1' if host in names else host, *a, **k)
+        socket.gethostbyname = lambda host: '127.0.0.1' if host in names else o_ghbn(host)
     pcont, ccont = contexts('provider'), contexts('consumer')
     provider = consumer = None
     async_provider = bool(arg.get('async_provider'))
+    label = {'async_provider': async_provider, 'alt_host': alt}
     try:
         mdib = ProviderMdib.from_string(load_mdib_bytes('mdib_tns.xml'))
         model, device = mk_model_and_device()
         # synchronous components: http.client connections go through SSLContext.wrap_socket, which the recorder observes; asyncio / aiohttp
         # (the default provider components) wrap with memory BIOs and are judged by the first-bytes monitor
         from sdc11073.provider.providerimpl import provider_components_async_factory, provider_components_sync_factory
-        provider = SdcProvider(WsdStub('127.0.0.1'), model, device, mdib, ssl_context_container=pcont, max_subscription_duration=60,
-                               components=provider_components_async_factory() if async_provider else provider_components_sync_factory())
+        wsd = WsdStub('127.0.0.1')
+        provider = SdcProvider(wsd, model, device, mdib, ssl_context_container=pcont, max_subscription_duration=600, socket_timeout=WATCHDOG,
+                               components=provider_components_async_factory() if async_provider else provider_components_sync_factory(),
+                               alternative_hostname='vfhost.example' if alt else None)
+        provider.set_used_compression()  # nothing compressed: the captured plaintext stays readable
         provider.start_all(start_rtsample_loop=False)
         xaddr = provider.get_xaddrs()[0]
-        consumer = SdcConsumer(xaddr, SdcV1Definitions, ssl_context_container=ccont, force_ssl_connect=True)
+        consumer = SdcConsumer(xaddr, SdcV1Definitions, ssl_context_container=ccont, force_ssl_connect=True, socket_timeout=int(WATCHDOG),
+                               alternative_hostname=CONSUMER_ALT if alt else None)
+        consumer.set_used_compression()
         consumer.start_all()
         from sdc11073.mdib.consumermdib import ConsumerMdib
         cm = ConsumerMdib(consumer)
@@ -592,50 +698,151 @@ def w_real_sockets(ctx: core.Ctx, arg):
         memo = {}
         for _ in range(3):
             mdibops.apply_op(mdib, mdibops.gen_op(rng, mdib, memo, {'metric': 1, 'alert': 1}), memo)
-        deadline = time.time() + 10
-        while cm.mdib_version != mdib.mdib_version and time.time() < deadline:
-            time.sleep(0.05)
+        if not _barrier(consumer):
+            ctx.not_decided(f'real sockets: the consumer did not process its notification queue within the {WATCHDOG}s watchdog')
         if cm.mdib_version != mdib.mdib_version:
-            ctx.not_decided('real sockets: notifications did not arrive within the watchdog')
+            ctx.count('real.consumer_mdib_behind')  # not judged here (C01 does): this run is about how the bytes travel
         provider_port = provider._http_server.server_port
         consumer_port = consumer._http_server.server_port
         if not xaddr.startswith('https://'):
             ctx.witness('url.provider_endpoint_advertised_plaintext', 'xAddr of a TLS provider uses http', {'xaddr': xaddr})
+        try:
+            from sdc11073.location import SdcLocation
+            provider.set_location(SdcLocation(fac='vf', poc='c19', bed='b2'))
+            consumer.send_probe()
+            ctx.count('real.directed_probe')
+        except Exception:  # noqa: BLE001
+            ctx.count('real.directed_probe.failed')
+        for _epr, _types, _scopes, x_addrs in wsd.published:
+            for adr in x_addrs:
+                ctx.count('real.addresses.xaddrs_published')
+                if c19_wire.scheme_of(adr) != 'https':
+                    ctx.witness('url.provider_address_not_https.xaddrs', 'a provider configured with TLS hands an xAddr without https to WS-Discovery',
+                                {**label, 'address': adr})
         for sub in list(consumer._subscription_mgr.subscriptions.values()):
             sub.renew(60)
             sub.get_status()
+        # ---- hostile peers against the two real servers (both were given the server context of a container built from a CA file) ----------
+        for who, port in (('provider', provider_port), ('consumer_event_sink', consumer_port)):
+            for kind in ('trusted', 'anonymous', 'untrusted', 'plaintext'):
+                accepted, info = _http_probe(port, kind, harness_socks)
+                ctx.count(f'real.peer_probe.{kind}.{"answered" if accepted else "refused"}')
+                ctx.count('real.peer_probes')
+                ctx.case(('real-peer', who, kind, async_provider, alt))
+                if kind == 'trusted':
+                    if not accepted:
+                        ctx.not_decided(f'real sockets: the control peer with a trusted certificate got no answer from the {who} server ({info})')
+                elif accepted:
+                    ctx.witness(f'handshake.real.client_{kind}.accepted',
+                                f'the http server of a TLS {who} (server context built from a CA file) answered a {kind} peer', {**label, 'server': who, 'info': info})
+        # the other direction: the consumer's client context against a server whose certificate another CA signed
+        srv = socket.socket(socket.AF_INET, socket.SOCK_STREAM)
+        srv.bind(('127.0.0.1', 0))
+        srv.listen(2)
+        srv.settimeout(WATCHDOG)
+        sctx = ssl.SSLContext(ssl.PROTOCOL_TLS_SERVER)
+        sctx.load_cert_chain(PKI / 'untrusted.pem', PKI / 'untrusted.key')
+        served = {}
+
+        def serve():
+            try:
+                conn, _ = srv.accept()
+                harness_socks.append(conn)
+                conn.settimeout(WATCHDOG)
+                try:
+                    tls = sctx.wrap_socket(conn, server_side=True)
+                    harness_socks.append(tls)
+                    served['handshake'] = 'completed'
+                    tls.close()
+                except (ssl.SSLError, OSError) as ex:
+                    served['handshake'] = type(ex).__name__
+                    conn.close()
+            except OSError as ex:
+                served['accept'] = type(ex).__name__
+        th = threading.Thread(target=serve, daemon=True)
+        th.start()
+        client = consumer.get_soap_client(f'https://127.0.0.1:{srv.getsockname()[1]}/vf')
+        try:
+            client.connect()
+            connected = True
+        except Exception as ex:  # noqa: BLE001
+            connected = False
+            served['client'] = type(ex).__name__
+        th.join(WATCHDOG)
+        srv.close()
+        ctx.count(f'real.untrusted_server.{"connected" if connected else "refused"}')
+        ctx.count('real.peer_probes')
+        ctx.case(('real-peer', 'untrusted_server', async_provider, alt))
+        if connected:
+            ctx.witness('handshake.real.server_untrusted.accepted', 'the soap client of a TLS-enforced consumer connected to a server whose certificate '
+                        'was signed by another CA than the one its contexts were built from', {**label, **served})
+        try:
+            client.close()
+        except Exception:  # noqa: BLE001
+            pass
+        n_connects = len(connects)
         consumer.stop_all()
         provider.stop_all()
+        harness_ids = {id(x) for x in harness_socks}
         for sid, addr, sock in connects:
-            if addr[1] in (provider_port, consumer_port):
+            if addr[1] in (provider_port, consumer_port) and sid not in harness_ids:
                 ctx.count('real.tcp_connections')
                 expected = ccont.client_context if addr[1] == provider_port else pcont.client_context
                 if async_provider and addr[1] == consumer_port:
                     continue  # asyncio TLS: judged by the first-bytes monitor below
                 if wraps.get(sid) is not expected:
                     ctx.witness('connect.real_socket_not_wrapped', 'a TCP connection to a TLS endpoint was not wrapped by the expected TLS client context',
-                                {'addr': list(addr), 'wrapped_by': repr(wraps.get(sid)), 'async_provider': async_provider})
+                                {'addr': list(addr), 'wrapped_by': repr(wraps.get(sid)), **label})
         for peer, own, head, _sock in list(first_bytes.values()):
+            if id(_sock) in harness_ids:
+                continue
             if peer[1] in (provider_port, consumer_port) or own[1] in (provider_port, consumer_port):
                 ctx.count('real.plain_socket_streams_checked')
                 ctx.count('real.plain_socket_streams_checked.' + ('async_provider' if async_provider else 'sync_provider'))
                 if not (len(head) >= 3 and head[0] in (0x14, 0x15, 0x16, 0x17) and head[1] == 0x03):
                     ctx.witness('connect.real_plaintext_bytes', 'bytes that are not a TLS record were written to a TCP connection of a TLS endpoint',
-                                {'peer': list(peer), 'own': list(own), 'first_bytes': head, 'async_provider': async_provider,
+                                {'peer': list(peer), 'own': list(own), 'first_bytes': head, **label,
                                  'towards': 'provider' if peer[1] == provider_port else 'consumer' if peer[1] == consumer_port else 'client'})
-        ctx.case(('real', 'tls-both-enforced', async_provider))
-        ctx.case(('real', 'connections', async_provider, len(connects) > 2))
+        # ---- addresses inside the TLS streams ----------------------------------------------------------------------------------------
+        n_urls = 0
+        for obj, buf in list(streams.values()):
+            if id(obj) in harness_ids:
+                continue
+            data = bytes(buf)
+            for m in c19_wire.RX_URL.finditer(data):
+                scheme, port = m.group(1).decode().lower(), int(m.group(3))
+                if port in (provider_port, consumer_port):
+                    n_urls += 1
+                    ctx.count('real.urls_scanned.' + ('provider' if port == provider_port else 'consumer'))
+                    if scheme != 'https':
+                        who = 'provider' if port == provider_port else 'consumer'
+                        ctx.witness(f'url.{who}_endpoint_advertised_plaintext',
+                                    f'own http server: a {who} with TLS {"configured" if who == "provider" else "enforced"} advertises one of its endpoints with http',
+                                    {**label, 'url': m.group(0).decode(), 'context': data[max(0, m.start() - 160):m.end() + 60]})
+        ctx.count('real.urls_scanned', n_urls)
+        ctx.count('real.tls_streams_captured', len(streams))
+        ctx.case(('real', 'tls-both-enforced', async_provider, alt))
+        ctx.case(('real', 'connections', async_provider, alt, n_connects > 2))
     except Exception as ex:  # noqa: BLE001
-        ctx.not_decided(f'real-socket sub-check could not run: {ex!r}')
+        import traceback
+        ctx.not_decided(f'real-socket sub-check could not run: {ex!r} {traceback.format_exc()[-800:]}')
     finally:
         ssl.SSLContext.wrap_socket = orig_wrap
         socket.socket.send, socket.socket.sendall = o_send, o_sendall
+        ssl.SSLSocket.send, ssl.SSLObject.write = o_ssl_send, o_obj_write
+        socket.getaddrinfo, socket.gethostbyname = o_gai, o_ghbn
 
 
 def run(ctx: core.Ctx):
-    ctx.rule = ('configuration enumeration: provider TLS {off,on} x consumer {none, optional, enforced} x {sync, async} x alternative host name '
-                '(24 loop-back runs, each with start-up, subscription, 5 transactions, operation, renew, GetStatus, unsubscribe, shutdown); '
-                'handshake matrix {trusted, untrusted, no certificate} x direction; two real-socket runs (sync / async provider components).  distinct = configuration + outcome')
+    ctx.rule = ('configuration enumeration: provider TLS {off,on} x consumer {none, optional, enforced} x {sync, async} x alternative host names '
+                '(provider and consumer) + reference-parameter dispatching subscription managers (quick: 3 configurations, thorough: all 24); each '
+                'loop-back run = raw subscriber (9 directed + seeded random combinations of wsa:To x Host header x NotifyTo x EndTo written by hand), '
+                'library consumer session (start-up, subscription, 5 transactions, operation, renew, GetStatus, location / Hello, directed Probe, '
+                'faults after start-up, unsubscribe, restart against a failing handshake), provider shutdown with SubscriptionEnd; '
+                'certloader: one-call variants + 8 directed and seeded random call sequences (key pair x CA {none, a, b} x cyphers x direct/folder), '
+                'every call with a CA judged by the per-call model (verify_mode + 5 in-memory handshakes), earlier results judged again at the end; '
+                'four real-socket runs (sync / async provider components x alternative host names, own http servers) with hostile peers against both '
+                'servers.  distinct = configuration + outcome / shape of the raw Subscribe / shape of the call sequence / kind of peer')
     jobs = []
     first = True
     for provider_tls in (False, True):
@@ -645,25 +852,54 @@ def run(ctx: core.Ctx):
                     jobs.append(['w_loopback', {'provider_tls': provider_tls, 'consumer': consumer, 'async_mgr': async_mgr, 'alt_host': alt,
                                                 'sample': first and provider_tls}])
     jobs[12][1]['sample'] = True
+    if ctx.quick:
+        for provider_tls, consumer, async_mgr in ((True, 'enforced', False), (True, 'enforced', True), (False, 'none', False)):
+            jobs.append(['w_loopback', {'provider_tls': provider_tls, 'consumer': consumer, 'async_mgr': async_mgr, 'alt_host': False, 'dispatch': 'refparam'}])
+    else:
+        for job in list(jobs):
+            jobs.append(['w_loopback', {**job[1], 'dispatch': 'refparam', 'sample': False}])
     for scheme in ('http', 'https'):
         for async_mgr in (False, True):
             jobs.append(['w_loopback', {'provider_tls': True, 'consumer': 'enforced', 'async_mgr': async_mgr, 'alt_host': False, 'offsite_wsdl': scheme}])
     jobs.append(['w_contexts', {}])
-    jobs.append(['w_real_sockets', {'async_provider': False}])
-    jobs.append(['w_real_sockets', {'async_provider': True}])
+    for async_provider in (False, True):
+        for alt in (False, True):
+            jobs.append(['w_real_sockets', {'async_provider': async_provider, 'alt_host': alt}])
     core.fanout(ctx, MODULE, 'dispatch', jobs, timeout=600)
     ctx.exhaustive = True
-    ctx.extra['exhaustive_part'] = 'the configuration space listed in rule; traffic per configuration is one scripted session'
-    ctx.floor('loopback.urls_scanned', 200)
+    ctx.extra['exhaustive_part'] = ('the configuration space listed in rule; traffic per configuration is one scripted session plus the directed raw '
+                                    'Subscribe combinations; random part: further raw combinations and certloader call sequences')
+    ctx.floor('loopback.urls_scanned', 1000)
+    ctx.floor('loopback.addresses_checked', 800)
+    ctx.floor('loopback.addresses.subscription_manager', 300)
+    ctx.floor('loopback.addresses.hosted_endpoint', 100)
+    ctx.floor('loopback.addresses.wsdl_location', 100)
+    ctx.floor('loopback.addresses.xaddrs', 8)
+    ctx.floor('loopback.addresses.xaddrs_published', 8)
+    ctx.floor('loopback.addresses.notify_to', 16)
+    ctx.floor('loopback.addresses.end_to', 16)
+    ctx.floor('loopback.raw.subscribe_responses.tls_provider', 100)
+    ctx.floor('loopback.raw.sink_connections', 30)
+    ctx.floor('loopback.midsession_faults_injected', 10)
     ctx.floor('loopback.getmetadata_with_foreign_host_header', 20)
     ctx.floor('loopback.offsite_wsdl_locations_planted', 4)
-    ctx.floor('loopback.connections_recorded', 30)
+    ctx.floor('loopback.connections_recorded', 100)
     ctx.floor('contexts.handshakes', 10)
-    ctx.floor('real.tcp_connections', 4)
-    ctx.floor('real.plain_socket_streams_checked.async_provider', 1)
+    ctx.floor('contexts.history.calls_with_ca_after_same_key_other_ca_setting', 8)
+    ctx.floor('contexts.history.handshakes', 100)
+    ctx.floor('contexts.history.rechecked_after_later_calls', 6)
+    ctx.floor('real.tcp_connections', 8)
+    ctx.floor('real.plain_socket_streams_checked.async_provider', 2)
+    ctx.floor('real.urls_scanned.provider', 40)
+    ctx.floor('real.urls_scanned.consumer', 16)
+    ctx.floor('real.peer_probe.trusted.answered', 8)
+    ctx.floor('real.peer_probes', 32)
     ctx.assumptions += ['loop-back: a TLS / plaintext mismatch is emulated by the transport (SSLError resp. connection reset), no real handshake',
                         'handing a plaintext shared server to a TLS-enforced consumer is an application contradiction and not generated',
-                        'real-socket runs: connections of http.client are attributed to the wrapping SSLContext; asyncio TLS (async provider components) is judged by the first bytes written to the plain socket (must be a TLS record header)']
+                        'real-socket runs: connections of http.client are attributed to the wrapping SSLContext; asyncio TLS (async provider components) is judged by the first bytes written to the plain socket (must be a TLS record header)',
+                        'real-socket runs: compression is switched off on both sides so that the plaintext captured at the entry of the TLS layer can be scanned for addresses',
+                        'transport addresses judged structurally: wse:SubscriptionManager, dpws:Hosted EPRs, mex Location, wsd:XAddrs (provider), wse:NotifyTo / wse:EndTo (enforced consumer); wsa:To / ReplyTo echo what the peer wrote and are not judged; the SubscriptionEnd manager address is written https:host:port (no //) by the library: its scheme is https, the malformed form is not a matter of this property',
+                        'after an injected connection error the harness calls connect() on the closed soap clients (the library leaves that to the application)']
 
 
 def dispatch(ctx: core.Ctx, job):
